@@ -71,6 +71,8 @@ def _seqs(tier):
               ['R', 'W0', 'W0', 'F0', 'V'], ['R', 'W1', 'W0', 'F0', 'V'], ['R', 'W0', 'W1', 'W0', 'F0', 'V'],
               ['R', 'W2', 'F0', 'V', 'Aa', 'V'], ['R', 'W0', 'V', 'F0', 'V']]
     # a callback that frees resources from inside the check makes an earlier, already skipped waiter feasible
+    # the pool a waiter needs is created only later (first add_resources for that name)
+    picked += [['W0u', 'Au', 'V'], ['W0u', 'V', 'Au', 'V'], ['W0u', 'W0', 'Au', 'Au', 'V']]
     picked += [['R', 'Rb', 'W0', 'W3b', 'F1', 'V', 'V'], ['R', 'W0', 'W4b', 'Ab', 'V'], ['R', 'Rb', 'W0', 'W3b', 'F1', 'V', 'W0', 'V']]
     if tier == 'thorough':
         picked += [['R', 'R', 'W0', 'W0', 'F0', 'F1', 'V'], ['R', 'W1', 'W1', 'F0', 'Z', 'F0', 'V'],
@@ -99,7 +101,7 @@ def bounds_text(tier):
 def required_goals(tier):
     return ['waiter_served', 'waiter_served_after_release', 'waiter_served_after_capacity_increase', 'waiter_skipped_infeasible',
             'two_served_in_one_check', 'reserve_inside_blocks_successor', 'registered_during_scan', 'waiter_still_waiting_at_advance',
-            'released_inside_callback', 'capacity_added_inside_callback']
+            'released_inside_callback', 'capacity_added_inside_callback', 'pool_created_while_waiting']
 
 
 def signature(f):
@@ -124,15 +126,18 @@ def run(shape, args, ctx):
     state = {'in_check': False, 'last_op': None}
 
     def pool():
-        return {n: (_num(z(rm.get_resource_usage(n))), _num(z(rm.get_resource_capacity(n)))) for n in ('a', 'b')}
+        return {n: (_num(z(rm.get_resource_usage(n))), _num(z(rm.get_resource_capacity(n)))) for n in ('a', 'b', 'u')}
 
     def fits(req, p):
         return ctx.And(*[ctx.Or(v <= 0, p[n][1] - p[n][0] >= v) for n, v in req.items()])
 
-    def register(kind, x, y, tag):
+    def register(kind, x, y, tag, u=None):
         w = _Waiter()
         w.kind, w.req, w.called, w.tag = kind, {'a': z(x), 'b': z(y)}, 0, tag
         w.user_dict = {'a': x, 'b': y}
+        if u is not None:      # a request on a resource whose pool does not exist yet
+            w.req['u'] = z(u)
+            w.user_dict['u'] = u
 
         def callback(manager, request, w=w):
             with ctx.notrace():
@@ -151,7 +156,7 @@ def run(shape, args, ctx):
                 ctx.goal('waiter_served')
                 if state['last_op'] in ('F0', 'F1'):
                     ctx.goal('waiter_served_after_release')
-                if state['last_op'] in ('Aa', 'Ab'):
+                if state['last_op'] in ('Aa', 'Ab', 'Au'):
                     ctx.goal('waiter_served_after_capacity_increase')
             if w.kind == 1:
                 r = manager.reserve_resources(request)
@@ -238,12 +243,16 @@ def run(shape, args, ctx):
         if k[0] in 'AF':
             state['last_op'] = k
         if k[0] == 'W':
-            if k.endswith('b') and not k.endswith('ab'):
+            if k.endswith('u'):
+                register(int(k[1]), 0, 0, f'w{i}', u=args[f'x{i}'])
+            elif k.endswith('b') and not k.endswith('ab'):
                 register(int(k[1]), 0, args[f'x{i}'], f'w{i}')
             else:
                 register(int(k[1]), args[f'x{i}'], args.get(f'y{i}', 0), f'w{i}')
         elif k[0] == 'A':
-            name = 'a' if k == 'Aa' else 'b'
+            name = {'Aa': 'a', 'Ab': 'b', 'Au': 'u'}[k]
+            if k == 'Au':
+                ctx.goal('pool_created_while_waiting')
             try:
                 rm.add_resources(name, args[f'x{i}'])
             except ValueError:
